@@ -287,6 +287,25 @@ pub fn c14(cx: &mut Ctx) {
             cx.op("follow samehost");
         }
     }
+    // dot segments in every position of a path-absolute or relative Location — last segment, before the query,
+    // the whole path — on the first and on the second hop (the second hop's base is a URI the library made)
+    for loc in ["/docs/v2/..", "/docs/v2/.", "/a/b/..?page=2", "/a/b/.?x", "/..", "/.", "/a/..", "/a/.", "/a/b/../..", "/a/./b/..", "/a/b/..#f", "a/..", "a/.", "../..", "/a/..;p", "/a/...", "/a/.b", "/a/b/%2e%2e"] {
+        for first in ["/start/here", "http://b.test/x/y?z"] {
+            for hop2 in [false, true] {
+                cx.case("dots");
+                if cx.rec.new_flow("GET HTTP/1.1 http://a.test/b/c/d?q 0") != "ok" { continue; }
+                let mut ok = true;
+                if hop2 {
+                    let h = Hop { status: 302, locations: vec![first.as_bytes().to_vec()], body: false };
+                    if !exchange_to_redirect(cx, &h) || !cx.op("follow never").starts_with("flow ") { ok = false; }
+                }
+                if !ok { continue; }
+                let h = Hop { status: 307, locations: vec![loc.as_bytes().to_vec()], body: false };
+                if !exchange_to_redirect(cx, &h) { continue; }
+                if cx.op("follow samehost").starts_with("flow ") { cx.op("uri?"); cx.op("proceed"); cx.op("write 65536"); }
+            }
+        }
+    }
     for locs in [vec![], vec![b"/caf\xe9".to_vec()], vec![b"/ok".to_vec(), b"\xff".to_vec()]] {
         cx.case("bad");
         if cx.rec.new_flow("GET HTTP/1.1 http://a.test/ 0") != "ok" { continue; }
